@@ -233,3 +233,13 @@ func parseSMTInt(s string) (int64, bool) {
 	}
 	return v, true
 }
+
+func solveQuick(query string, tag string, quickS int) SolveResult {
+	dir := scratchDir()
+	file := filepath.Join(dir, fmt.Sprintf("q_%d_%s.smt2", os.Getpid(), tag))
+	os.WriteFile(file, []byte(query), 0o644)
+	defer os.Remove(file)
+	r := runOne(context.Background(), solvers[0], file, quickS)
+	r.Tried = []string{fmt.Sprintf("%s:%s:%.2fs", r.Solver, r.Status, r.Seconds)}
+	return r
+}
